@@ -94,3 +94,33 @@ def _(c):
     c.ensures('data[result] > 0', label='positive-weight')
     c.ensures('kappa() == old(kappa()) + 1', label='stream')
     c.modifies('kappa')
+
+
+@fuc('random', 'normal_rv', props=['C10'])
+def _(c):
+    c.requires('U(kappa()) > 0')
+    c.ensures('result == sqrt_(-2 * ln(U(old(kappa())))) * ufun("cos", 2 * 3.141592653589793238462643383279502884 * U(old(kappa()) + 1)) * std + mean',
+              label='box-muller')
+    c.ensures('kappa() == old(kappa()) + 2', label='stream')
+    c.modifies('kappa')
+    c.note('Box-Muller transform of two stream elements; that it yields N(mean, std^2) is cited')
+
+
+@fuc('random', 'gamma_rv', props=['C10'])
+def _(c):
+    c.requires('k >= 1 and theta > 0')
+    c.assume('forall(lambda q: U(q) > 0)', 'uniform_rv() == 0 excluded')
+    D = '(k - 1.0 / 3)'
+    CC = '(1 / sqrt_(9.0 * %s))' % D
+    c.loop(0).invariant('d == %s and c == %s' % (D, CC), label='constants') \
+             .invariant('kappa() >= old(kappa())', label='stream-monotone').also_modifies('kappa')
+    # Marsaglia-Tsang (shape k >= 1): the returned value is d*v*theta for the ACCEPTED round, whose three stream elements are
+    # the last three consumed: x = Box-Muller(U[kappa-3], U[kappa-2]), UNI = U[kappa-1]
+    X = '(sqrt_(-2 * ln(U(kappa() - 3))) * ufun("cos", 2 * 3.141592653589793238462643383279502884 * U(kappa() - 2)) * 1 + 0)'
+    V = '((1 + %s * %s) ** 3)' % (CC, X)
+    c.ensures('result == %s * %s * theta' % (D, V), label='value-of-the-accepted-round')
+    c.ensures('%s > 0 and ln(U(kappa() - 1)) < 0.5 * %s ** 2 + %s - %s * %s + %s * ln(%s)' % (V, X, D, D, V, D, V),
+              label='acceptance-inequality')
+    c.ensures('kappa() >= old(kappa()) + 3', label='stream')
+    c.modifies('kappa')
+    c.note('rejection loop: termination is not proved; that the accepted value is Gamma(k, theta) is the Marsaglia-Tsang theorem (cited)')
